@@ -100,11 +100,16 @@ def cases(tier, seed):
     for i, g in enumerate(neg):
         for f in ('randmio_und_connected', 'latmio_und_connected'):
             out.append({'f': f, 'g': g, 'kind': 'neg_disconnected', 'w': ('bin', 'real')[i % 2], 'ws': i, 'directed': False})
-    asym = [['named', 'er_strong', 6, .3, seed + i] for i in range(10 if thorough else 5)] + \
+    asym = [['named', 'er_strong', 6, .3, seed + i] for i in range(30 if thorough else 5)] + \
            [['named', 'dcycle_chords', 7, 4, seed], ['named', 'tournament', 6, seed]]
     for i, g in enumerate(asym):
         for f in ('randmio_und_connected', 'latmio_und_connected'):
             out.append({'f': f, 'g': g, 'kind': 'neg_asymmetric', 'w': ('bin', 'real')[i % 2], 'ws': i, 'directed': True})
+            out.append({'f': f, 'g': g, 'kind': 'neg_asymmetric', 'w': 'real', 'ws': i, 'directed': True, 'scale': 1e-10})
+    for i, g in enumerate(und[::4]):   # the same routines on weights far below any absolute tolerance
+        for f in ('randmio_und_connected', 'latmio_und_connected', 'latmio_und'):
+            out.append({'f': f, 'g': g, 'w': 'real', 'ws': i, 'directed': False, 'kind': 'single', 'itrs': [1, 2], 'rs': seed * 100 + i,
+                        'pols': ['sticky'], 'scale': 1e-10})
     return out
 
 
@@ -112,7 +117,7 @@ def run(case, bct, REC):
     f = case['f']
     directed = case['directed']
     A = G.build(case['g'])
-    R = G.weigh(A, case.get('w', 'bin'), case.get('ws', 0), symmetric=not directed)
+    R = G.weigh(A, case.get('w', 'bin'), case.get('ws', 0), symmetric=not directed) * case.get('scale', 1.0)
     n = len(R)
     kind = case['kind']
     if kind in ('neg_disconnected', 'neg_asymmetric'):
